@@ -228,13 +228,94 @@ impl CanonicalRequest {
         assert(is_sorted_names(vals_bytes(signed_headers@), Seq::new(split(m[K_SIGNED_HEADERS()], 0x3b).len(), |i: int| str_bytes(latin1(split(m[K_SIGNED_HEADERS()], 0x3b)[i])))));
     }
 //@ end
+    /// the first value of a query parameter (C19: "the first value of a repeated X-Amz-* query parameter"), still percent-encoded
+    pub open spec fn first_query(&self, name: Seq<u8>) -> Option<Seq<u8>> {
+        if self.qview().contains_key(name) && self.qview()[name].len() > 0 { Some(self.qview()[name][0]) } else { None }
+    }
+    /// link between the abstract first value and the concrete map entry looked up with a &str key (proved once, used per parameter)
+    pub proof fn lemma_first_query(&self, k: &str)
+        requires self.wf()
+        ensures
+            (self.first_query(k.spec_bytes()) is Some) == self.qp().contains_key(string_of_bytes(k.spec_bytes())),
+            self.qp().contains_key(string_of_bytes(k.spec_bytes())) ==> {
+                &&& self.qp()[string_of_bytes(k.spec_bytes())]@.len() > 0
+                &&& self.first_query(k.spec_bytes())->Some_0 == str_bytes(self.qp()[string_of_bytes(k.spec_bytes())]@[0]@)
+                &&& well_escaped(str_bytes(self.qp()[string_of_bytes(k.spec_bytes())]@[0]@))
+            },
+    {
+        broadcast use axiom_string_of_str_bytes;
+        let sk = string_of_bytes(k.spec_bytes());
+        if self.query_parameters@.contains_key(sk) {
+            assert(self.query_parameters@[sk]@.len() > 0);
+            assert(self.qview()[k.spec_bytes()] == vals_bytes(self.query_parameters@[sk]@));
+        }
+    }
+    /// ... and percent-decoded
+    pub open spec fn first_query_decoded(&self, name: Seq<u8>) -> Seq<u8> {
+        decode_from(self.first_query(name)->Some_0, 0, false)->Some_0
+    }
+    /// rules 7a (algorithm) and 7d (missing parameters)
+    pub open spec fn query_carrier_missing(&self) -> bool {
+        self.first_query(Q_CREDENTIAL()) is None || self.first_query(SIG()) is None || self.first_query(Q_SIGNED_HEADERS()) is None || self.first_query(Q_DATE()) is None
+    }
+    /// what the query-string carrier yields: credential, token and date in DECODED form (C02), the signature as sent
+    pub open spec fn query_carrier_ok(&self, p: AuthParams) -> bool {
+        &&& p.builder.credential is Some && p.builder.credential->Some_0@ == latin1(self.first_query_decoded(Q_CREDENTIAL()))
+        &&& p.builder.signature is Some && str_bytes(p.builder.signature->Some_0@) == self.first_query(SIG())->Some_0
+        &&& is_sorted_names(p.signed(), split(str_bytes(latin1(self.first_query_decoded(Q_SIGNED_HEADERS()))), 0x3b))
+        &&& p.timestamp_str@ == latin1(self.first_query_decoded(Q_DATE()))
+        &&& (self.first_query(Q_SECURITY_TOKEN()) is None ==> p.builder.session_token is None)
+        &&& (self.first_query(Q_SECURITY_TOKEN()) is Some ==> p.builder.session_token == Some(Some(p.builder.session_token->Some_0->Some_0))
+                && p.builder.session_token->Some_0->Some_0@ == latin1(self.first_query_decoded(Q_SECURITY_TOKEN())))
+        &&& p.builder.request_timestamp is None && p.builder.canonical_request_sha256 is None
+    }
+
 //@ fn canonical.rs impl CanonicalRequest :: get_auth_parameters_from_query_parameters
 //@ props C08 C19 C13 C02
 //@ ret r
-//@ attr #[verifier::external_body] // TEMP
+//@ attr #[verifier::rlimit(60)]
+//@ replace 1 `unescaped_signed_headers.split(';').map(|s| s.to_string()).collect::<Vec<String>>()` => `string_split_to_strings(&unescaped_signed_headers, ';')`
+//@ replace 1 `signed_headers.sort();` => `sort_strings(&mut signed_headers);`
 //@ spec
     requires self.wf()
+    ensures
+        query_alg.spec_bytes() != ALGO() ==> r is Err && r->Err_0 is MissingAuthenticationToken, //# C13 C19 name=rule_7a_wrong_algorithm
+        query_alg.spec_bytes() == ALGO() && self.query_carrier_missing() ==> r is Err && r->Err_0 is IncompleteSignature, //# C13 C19 name=rule_7d_missing_parameter
+        query_alg.spec_bytes() == ALGO() && !self.query_carrier_missing() ==> r is Ok && self.query_carrier_ok(r->Ok_0), //# C19 C02 name=first_value_of_each_parameter_decoded
+//@ bodystart
+    hide(qmap);
+    broadcast use axiom_contains_str_key, axiom_maps_str_key_to_value, axiom_string_of_str_bytes, axiom_string_key_model;
+    proof {
+        lemma_params_literals();
+        lemma_str_bytes_inj(query_alg@, AWS4_HMAC_SHA256@);
+        self.lemma_first_query(X_AMZ_CREDENTIAL);
+        self.lemma_first_query(X_AMZ_SIGNATURE);
+        self.lemma_first_query(X_AMZ_SIGNED_HEADERS);
+        self.lemma_first_query(X_AMZ_DATE);
+        self.lemma_first_query(X_AMZ_SECURITY_TOKEN);
+    }
+//@ before 1 `signed_headers.sort();`
+    let ghost names0 = vals_bytes(signed_headers@);
+//@ before 1 `Ok(AuthParams {`
+    proof {
+        assert(builder.credential is Some && builder.credential->Some_0@ == latin1(self.first_query_decoded(Q_CREDENTIAL())));
+        assert(builder.signature is Some && str_bytes(builder.signature->Some_0@) == self.first_query(SIG())->Some_0);
+        assert(timestamp_str@ == latin1(self.first_query_decoded(Q_DATE())));
+        assert(self.first_query(Q_SECURITY_TOKEN()) is None ==> builder.session_token is None);
+        assert(builder.request_timestamp is None && builder.canonical_request_sha256 is None);
+        assert(names0 =~= split(str_bytes(latin1(self.first_query_decoded(Q_SIGNED_HEADERS()))), 0x3b));
+        assert(is_sorted_names(vals_bytes(signed_headers@), split(str_bytes(latin1(self.first_query_decoded(Q_SIGNED_HEADERS()))), 0x3b)));
+    }
 //@ end
+    pub open spec fn first_auth_header(&self) -> Seq<u8> { self.hview()[H_AUTHORIZATION()][0] }
+    pub open spec fn first_query_alg(&self) -> Seq<u8> { self.qview()[Q_ALGORITHM()][0] }
+    /// exactly one carrier is present and its extraction succeeded with `p`
+    pub open spec fn carrier_selected(&self, p: AuthParams) -> bool {
+        let ha = self.hview().contains_key(H_AUTHORIZATION());
+        let qa = self.qview().contains_key(Q_ALGORITHM());
+        ||| (ha && !qa && !self.header_carrier_fails(self.first_auth_header()) && self.header_carrier_ok(self.first_auth_header(), p))
+        ||| (!ha && qa && self.first_query_alg() == ALGO() && !self.query_carrier_missing() && self.query_carrier_ok(p))
+    }
 
 //@ fn canonical.rs impl CanonicalRequest :: get_auth_parameters
 //@ props C08 C05 C19 C13
@@ -254,7 +335,91 @@ impl CanonicalRequest {
         forall|i: int| 0 <= i < signed_header_requirements.if_in_request_spec().len() ==> all_ascii(#[trigger] signed_header_requirements.if_in_request_spec()[i]),
         forall|i: int| 0 <= i < signed_header_requirements.prefixes_spec().len() ==> all_ascii(#[trigger] signed_header_requirements.prefixes_spec()[i]),
     ensures
+        self.hview().contains_key(H_AUTHORIZATION()) && self.qview().contains_key(Q_ALGORITHM())
+            ==> r is Err && r->Err_0 is SignatureDoesNotMatch, //# C19 C13 name=both_carriers_present_is_refused
+        !self.hview().contains_key(H_AUTHORIZATION()) && !self.qview().contains_key(Q_ALGORITHM())
+            ==> r is Err && r->Err_0 is MissingAuthenticationToken, //# C13 name=no_carrier_is_missing_token
+        self.hview().contains_key(H_AUTHORIZATION()) && !self.qview().contains_key(Q_ALGORITHM()) ==> {
+            &&& (self.header_carrier_fails(self.first_auth_header()) ==> r is Err && r->Err_0 is IncompleteSignature)
+            &&& (r is Ok ==> self.header_carrier_ok(self.first_auth_header(), r->Ok_0))
+            &&& (r is Err && !self.header_carrier_fails(self.first_auth_header()) ==> r->Err_0 is SignatureDoesNotMatch)
+        }, //# C19 C13 C05 name=first_authorization_header_is_used
+        !self.hview().contains_key(H_AUTHORIZATION()) && self.qview().contains_key(Q_ALGORITHM()) ==> {
+            &&& (self.first_query_alg() != ALGO() ==> r is Err && r->Err_0 is MissingAuthenticationToken)
+            &&& (self.first_query_alg() == ALGO() && self.query_carrier_missing() ==> r is Err && r->Err_0 is IncompleteSignature)
+            &&& (r is Ok ==> self.query_carrier_ok(r->Ok_0))
+            &&& (r is Err && self.first_query_alg() == ALGO() && !self.query_carrier_missing() ==> r->Err_0 is SignatureDoesNotMatch)
+        }, //# C19 C13 C05 name=first_algorithm_parameter_is_used
         r is Ok ==> requirements_met(r->Ok_0.signed(), self.hview(), signed_header_requirements.always_spec(),
             signed_header_requirements.if_in_request_spec(), signed_header_requirements.prefixes_spec()), //# C05 name=accepted_only_if_every_required_header_is_signed
+//@ bodystart
+    hide(CanonicalRequest::header_carrier_ok);
+    hide(CanonicalRequest::header_carrier_fails);
+    hide(CanonicalRequest::query_carrier_ok);
+    hide(CanonicalRequest::query_carrier_missing);
+    broadcast use axiom_contains_str_key, axiom_maps_str_key_to_value, axiom_string_of_str_bytes, axiom_string_key_model;
+    proof {
+        lemma_params_literals();
+        broadcast use axiom_string_of_bytes;
+        let ka = string_of_bytes(H_AUTHORIZATION());
+        let kq = string_of_bytes(Q_ALGORITHM());
+        if self.headers@.contains_key(ka) { assert(self.headers@[ka]@.len() > 0); assert(self.hview()[H_AUTHORIZATION()] == vecs_bytes(self.headers@[ka]@)); }
+        if self.query_parameters@.contains_key(kq) { assert(self.query_parameters@[kq]@.len() > 0); assert(self.qview()[Q_ALGORITHM()] == vals_bytes(self.query_parameters@[kq]@)); }
+    }
+//@ before 1 `let mut found_host = false;`
+    let ghost signed = params.signed();
+    let ghost hv = self.hview();
+    proof { assert(self.carrier_selected(params)); }
+//@ loop 1 iter it1
+        invariant
+            signed == vals_bytes(params.signed_headers@),
+            it1.seq().len() == params.signed_headers@.len(),
+            forall|i: int| 0 <= i < params.signed_headers@.len() ==> *(#[trigger] it1.seq()[i]) == params.signed_headers@[i],
+            found_host ==> signed.contains(HOST()) || signed.contains(AUTHORITY()),
+//@ before 1 `if header == "host" || header == ":authority" {`
+            proof { lemma_params_literals(); assert(str_bytes(header@) == signed[it1.index@]); }
+//@ loop 2 iter it2
+        invariant
+            self.carrier_selected(params),
+            signed == vals_bytes(params.signed_headers@),
+            it2.seq().len() == signed_header_requirements.always_spec().len(),
+            forall|i: int| 0 <= i < it2.seq().len() ==> cow_bytes(*(#[trigger] it2.seq()[i])) == signed_header_requirements.always_spec()[i],
+            forall|i: int| 0 <= i < signed_header_requirements.always_spec().len() ==> all_ascii(#[trigger] signed_header_requirements.always_spec()[i]),
+            forall|i: int| 0 <= i < it2.index@ ==> signed.contains(lower(#[trigger] signed_header_requirements.always_spec()[i])), //# C05 name=always_required_prefix_checked
+//@ loop 3 iter it3
+        invariant
+            self.carrier_selected(params),
+            signed == vals_bytes(params.signed_headers@), hv == self.hview(),
+            it3.seq().len() == signed_header_requirements.if_in_request_spec().len(),
+            forall|i: int| 0 <= i < it3.seq().len() ==> cow_bytes(*(#[trigger] it3.seq()[i])) == signed_header_requirements.if_in_request_spec()[i],
+            forall|i: int| 0 <= i < signed_header_requirements.if_in_request_spec().len() ==> all_ascii(#[trigger] signed_header_requirements.if_in_request_spec()[i]),
+            forall|i: int| 0 <= i < it3.index@ ==> (hv.contains_key(lower(#[trigger] signed_header_requirements.if_in_request_spec()[i])) ==> signed.contains(lower(signed_header_requirements.if_in_request_spec()[i]))), //# C05 name=conditionally_required_prefix_checked
+//@ before 1 `if self.headers.contains_key(&header_lower) && !params.signed_headers.contains(&header_lower) {`
+            proof { broadcast use axiom_string_key_model; lemma_hmap_contains(self.headers@, header_lower); }
+//@ loop 4 iter it4
+        invariant
+            self.carrier_selected(params),
+            signed == vals_bytes(params.signed_headers@), hv == self.hview(),
+            it4.seq().len() == signed_header_requirements.prefixes_spec().len(),
+            forall|i: int| 0 <= i < it4.seq().len() ==> cow_bytes(*(#[trigger] it4.seq()[i])) == signed_header_requirements.prefixes_spec()[i],
+            forall|i: int| 0 <= i < signed_header_requirements.prefixes_spec().len() ==> all_ascii(#[trigger] signed_header_requirements.prefixes_spec()[i]),
+            forall|i: int, k: Seq<u8>| 0 <= i < it4.index@ && #[trigger] hv.contains_key(k) && lower(#[trigger] signed_header_requirements.prefixes_spec()[i]).is_prefix_of(k) ==> signed.contains(k), //# C05 name=prefix_requirements_prefix_checked
+//@ before 1 `for http_header in self.headers.keys() {`
+            let ghost pfx = str_bytes(header_lower@);
+            proof { lemma_string_key_model(); assert(pfx == lower(signed_header_requirements.prefixes_spec()[it4.index@])); }
+//@ loop 5 iter it5
+                invariant
+                    self.carrier_selected(params),
+                    signed == vals_bytes(params.signed_headers@), hv == self.hview(),
+                    pfx == str_bytes(header_lower@),
+                    forall|k: String| self.headers@.contains_key(k) ==> exists|j: int| 0 <= j < it5.seq().len() && *(#[trigger] it5.seq()[j]) == k,
+                    forall|j: int| 0 <= j < it5.index@ ==> (pfx.is_prefix_of(str_bytes((#[trigger] it5.seq()[j])@)) ==> signed.contains(str_bytes(it5.seq()[j]@))),
+//@ after 1 `http_header<NL>                    ))));<NL>                }<NL>            }`
+            proof {
+                assert forall|k: Seq<u8>| #[trigger] hv.contains_key(k) && pfx.is_prefix_of(k) implies signed.contains(k) by {
+                    let ks = string_of_bytes(k);
+                    assert(self.headers@.contains_key(ks) && str_bytes(ks@) == k);
+                }
+            }
 //@ end
 }
